@@ -63,7 +63,17 @@ def _parse_export(rest: str):
     return nums, obj
 
 
-def run_tlc(spec_dir: str | Path, module: str, cfg: str, workers: int = 1, timeout: int = 3600,
+def run_tlc(*args, **kwargs) -> "TLCResult":
+    """Run TLC; a run that ends without any verdict (JVM killed from outside) is retried once."""
+    try:
+        return _run_tlc(*args, **kwargs)
+    except MachineryError as exc:
+        if "did not finish cleanly" not in str(exc):
+            raise
+        return _run_tlc(*args, **kwargs)
+
+
+def _run_tlc(spec_dir: str | Path, module: str, cfg: str, workers: int = 1, timeout: int = 3600,
             simulate: str | None = None, depth: int | None = None, coverage: bool = False,
             env_extra: dict | None = None, heap: str = "8g", keep_lines: bool = True,
             seed: int | None = None, dfid: int | None = None) -> TLCResult:
@@ -71,13 +81,13 @@ def run_tlc(spec_dir: str | Path, module: str, cfg: str, workers: int = 1, timeo
     if not spec_dir.is_absolute():
         spec_dir = SPEC / spec_dir
     meta = tempfile.mkdtemp(prefix="tlcmeta_")
-    cmd = ["java", f"-Xmx{heap}", "-XX:+UseParallelGC", "-cp", JAR + ":" + str(SPEC / "lib"),
+    cmd = ["java", f"-Xmx{heap}", "-XX:+UseParallelGC", f"-Djava.io.tmpdir={meta}", "-cp", JAR + ":" + str(SPEC / "lib"),
            "tlc2.TLC", "-workers", str(workers), "-metadir", meta, "-noGenerateSpecTE",
            "-config", cfg]
     # CommunityModules live on the wrapper's classpath; find them the same way `tlc` does.
     cm = "/opt/veriftools/tla/CommunityModules-deps.jar"
     if os.path.exists(cm):
-        cmd[4] = cmd[4] + ":" + cm
+        cmd[5] = cmd[5] + ":" + cm
     if simulate:
         cmd += ["-simulate", simulate]
     if depth is not None:
